@@ -32,6 +32,9 @@ func parserScope(c *Ctx) []*ssa.Function {
 
 func c12() []*Ob {
 	return []*Ob{
+		{Prop: "C12", ID: "C12.10", Engine: "PAIR(two sites)", Floor: 1,
+			Desc:  "the SeqQL parser never reaches its own `lexer is not end` panic: parsePipes succeeds only at the end of the input, or parseFieldList ends only in front of a pipe or at the end (its loop is the lexer's keyword test that includes the empty token)",
+			Check: func(c *Ctx) { pipesEndAtEndOfInput(c) }},
 		{Prop: "C12", ID: "C12.8", Engine: "PAIR", Floor: 2,
 			Desc:  "the words of a text term are the indexer's words: both parsers split the value of a text field with the same character classes as the text tokenizer (shared rule with C11.1) — 'several words on a text field are a conjunction' of exactly the words the documents were indexed under; a class that is narrower on the query side turns one indexed word into a conjunction of fragments no document has",
 			Check: shared("C11.1")},
@@ -493,10 +496,35 @@ func checkPropagateNot(c *Ctx) {
 		}
 		return fmt.Sprint(op)
 	}
-	// binary cells
-	for _, op := range []int64{and, or} {
+	// binary cells. The parsers build AND/OR/NOT trees only, and propagateNot is applied once, from the root. If it is also
+	// called from inside the recursive descent (to collapse a NOT chain early), it is later applied again to a tree that
+	// already contains fused NAND nodes: then the NAND input has to keep its meaning too.
+	ops := []int64{and, or}
+	inCycle := map[*ssa.Function]bool{}
+	if scope := parserScope(c); scope != nil {
+		for _, comp := range SCCs(scope) {
+			for _, f := range comp {
+				inCycle[f] = true
+			}
+		}
+	}
+	for _, call := range c.P.Callers(fn) {
+		caller := call.Parent()
+		for caller.Parent() != nil {
+			caller = caller.Parent()
+		}
+		if caller != fn && inCycle[caller] {
+			ops = append(ops, nand)
+			c.Note("propagateNot is also called from %s, inside the recursive descent: NAND inputs are checked as well", FuncName(caller))
+			break
+		}
+	}
+	for _, op := range ops {
 		for _, lN := range []bool{false, true} {
 			for _, rN := range []bool{false, true} {
+				if op == nand && (lN || rN) {
+					continue // a fused NAND sits in a tree that was normalised before: its operands come back un-negated
+				}
 				cell := fmt.Sprintf("%s:left-negated=%v:right-negated=%v", opName(op), lN, rN)
 				outs, err := FiniteEval(FEConfig{
 					Fn:         fn,
